@@ -433,7 +433,14 @@ func finish(p *PropDef, m *Merged, start time.Time, scratch string) int {
 	for _, l := range vioLines {
 		fmt.Println(l)
 	}
-	nviol := int(total)
+	var knownTotal int64
+	for k, a := range m.Classes {
+		if strings.HasPrefix(k, "known:") {
+			knownTotal += a.Count
+		}
+	}
+	nviol := int(total - knownTotal)
+	suppressed = knownTotal
 	exit := 0
 	if len(vioLines) > 0 {
 		exit = 1
